@@ -173,21 +173,27 @@ type Pong struct {
 }
 
 func onPongReader(message any, reader *messages.Reader, codec messages.Codec) error {
-	var pingTime int64
-	var respondTime int64
-	if err := reader.ReadInto(&pingTime, &respondTime); err != nil {
+	pingTime, err := messages.ReadTime(reader)
+	if err != nil {
+		return err
+	}
+	respondTime, err := messages.ReadTime(reader)
+	if err != nil {
 		return err
 	}
 
 	m := message.(*Pong)
-	m.PingTime = time.Unix(0, pingTime)
-	m.RespondTime = time.Unix(0, respondTime)
+	m.PingTime = pingTime
+	m.RespondTime = respondTime
 	return nil
 }
 
 func onPongWriter(message any, writer *messages.Writer, codec messages.Codec) error {
 	m := message.(*Pong)
-	return writer.WriteFrom(m.PingTime.UnixNano(), m.RespondTime.UnixNano())
+	if err := messages.WriteTime(writer, m.PingTime); err != nil {
+		return err
+	}
+	return messages.WriteTime(writer, m.RespondTime)
 }
 
 // Duration 返回从 pingTime 到 respondTime 的持续时间。
